@@ -497,7 +497,7 @@ def _get_method(model: Model, Rr: RuleResult):
     except dictsem.Unsupported as e:
         raise AnalysisError("get_method: body cannot be interpreted over the abstract lookup domain (%s)" % e)
     if not problems:
-        Rr.ok(f.fq, "get_method: exact case-insensitive names return their own entry, abbreviations / unknown names / non-callables raise, a callable passes through (11 probes)")
+        Rr.ok(f.fq, "get_method: exact case-insensitive names return their own entry, abbreviations / unknown names / non-callables raise, a callable passes through (14 probes)")
     else:
         Rr.bad(f, f.node, "get_method does not implement the documented lookup: %s" % problems[0], what="; ".join(problems)[:500])
     rets = [r for r in own_nodes(f.node) if isinstance(r, ast.Return)]
